@@ -70,8 +70,8 @@ Example C11_grammar_examples :
   fparse (s_ "a andb") = None /\ fparse (s_ "a ==") = None /\ fparse (s_ "(a") = None.
 Proof. vm_compute. repeat split. Qed.
 
-(* THE GRAMMAR, for every filter over presence atoms (has / not on a tag whose name is lower-case letters,
-   any name but the word "not") and comparison atoms (such a tag, any of the six operators, and a literal that is
+(* THE GRAMMAR, for every filter over presence atoms (has / not on a PATH tag->tag->... of tags whose names are
+   lower-case letters, any name but the word "not") and comparison atoms (such a path, any of the six operators, and a literal that is
    a boolean, an unsigned run of digits or ANY string, written with the ZINC escapes), of ANY size and nesting: the text written with single blanks, `and` chains
    inside `or` chains, parentheses exactly where an operand is itself an `or` (under `and`) or a right-nested
    chain, is parsed back to exactly that tree.  Hence `and` binds tighter than `or`, both are
@@ -93,12 +93,21 @@ Example C11_printer :
 Proof. vm_compute. repeat split. Qed.
 (* non-vacuity of the comparison case *)
 Example C11_printable_cmp :
-  printable (FOr (FAnd (FCmp CLe [s_ "n"] (VNum NkFin (s_ "42") (s_ "42") None)) (FCmp CNe [s_ "s"] (VStr (s_ "a""b")))) (FCmp CEq [s_ "t"] (VBool true))).
+  printable (FOr (FAnd (FCmp CLe [s_ "n"] (VNum NkFin (s_ "42") (s_ "42") None)) (FCmp CNe [s_ "s"] (VStr (s_ "a""b")))) (FCmp CEq [s_ "t"] (VBool true))) /\
+  printable (FAnd (FCmp CGe [s_ "site"; s_ "geo"; s_ "lat"] (VNum NkFin (s_ "40") (s_ "40") None)) (FMissing [s_ "equip"; s_ "hvac"])) /\
+  pr_or_i (FAnd (FCmp CGe [s_ "site"; s_ "geo"; s_ "lat"] (VNum NkFin (s_ "40") (s_ "40") None)) (FMissing [s_ "equip"; s_ "hvac"]))
+    = s_ "site->geo->lat >= 40 and not equip->hvac".
 Proof.
-  assert (L : forall c, In c (s_ "nst42") -> is_lower c = true \/ is_dig c = true).
-  { intros c H. cbn in H. repeat destruct H as [H|H]; subst; try (left; reflexivity); try (right; reflexivity). contradiction. }
-  cbn [printable val_ok]. unfold simple_name.
-  repeat split; try discriminate; repeat constructor.
+  assert (SN : forall n, n <> [] -> forallb is_lower n = true -> n <> KW_NOT -> simple_name n).
+  { intros n H1 H2 H3. split; [exact H1|]. split; [|exact H3]. apply Forall_forall. intros c Hc. rewrite forallb_forall in H2. exact (H2 c Hc). }
+  assert (P1 : forall n, n <> [] -> forallb is_lower n = true -> n <> KW_NOT -> path_ok [n]).
+  { intros n H1 H2 H3. split; [discriminate|]. constructor; [apply SN; assumption|constructor]. }
+  split; [|split; [|reflexivity]].
+  - cbn [printable val_ok]. repeat split; try (apply P1; [discriminate|reflexivity|discriminate]); try discriminate; repeat constructor.
+  - cbn [printable val_ok]. split; [split|].
+    + split; [discriminate|]. repeat (constructor; [apply SN; [discriminate|reflexivity|discriminate]|]). constructor.
+    + repeat split; try discriminate; repeat constructor.
+    + split; [discriminate|]. repeat (constructor; [apply SN; [discriminate|reflexivity|discriminate]|]). constructor.
 Qed.
 
 Print Assumptions C11_grammar.
